@@ -55,6 +55,13 @@ FIXED = [
  ("C14", "crash:signal6:allocation-failure (xref stream /W [0 0 0])", "an xref stream with /W [0 0 0] cannot declare entries without data", "/W [0 0 0] /Index [0 2147483647] built two billion entries before the /Size limit was checked"),
  ("C14", "panic:core/src/num/f32.rs:pdf::object::function::SampledFunctionInput::map:*", "a sampled function with a reversed or NaN /Domain", "f32::clamp panicked on /Domain [1 0]"),
  ("C14", "panic:pdf/src/crypt.rs:pdf::crypt::Decoder::from_password:attempt to multiply with overflow", "a huge crypt filter /Length no longer overflows", "CF /Length 4294967295 overflowed in 8 * n"),
+ ("C09", "c09:reload-error:Parse (junk before header)", "save() writes offsets relative to the header", "offset.pdf: after any save the file could not be read back (absolute offsets written, header-relative offsets read)"),
+ ("C09", "c09:update-changed-reference", "updating an object stored in an object stream keeps its object number", "update(14 0 R) on a compressed object returned 29 0 R; references to 14 kept the old value"),
+ ("C09", "c09:read-after-write-differs:resolve (merge)", "a second update of the same object replaces the first", "update r <</A 1>> then update r <<>>: resolve(r) still had /A"),
+ ("C09", "c09:save-error:Other (Invalid entry)", "a file with undefined object numbers below /Size can be saved", "save failed with 'invalid xref entry: Invalid' on a base whose /Size exceeds its defined objects"),
+ ("C09", "c09:read-after-write-differs:get", "update() invalidates the caches", "cached document: get::<Primitive>(r) after update(r, v) returned the value cached before"),
+ ("C09", "c09:retry-after-failed-save-fails", "a failed save leaves the storage unchanged", "save failed on a stream still pointing into the source file; after replacing the object every later save failed with 'invalid xref entry: Promised'"),
+ ("C09", "panic:pdf/src/file.rs:*update*", "update() of a free or undefined object number is an error", "update() on a free id hit panic!()"),
 ]
 OPEN = [
  ("C12", "gate:xref-stream-of-encrypted-file", "reading the cross-reference stream object of an encrypted file (Stream::data / resolve) decrypts it although cross-reference streams are never encrypted; with a stream cache the right data is returned because loading cached it before the decoder existed, without one the call fails ('can't inflate'), so the caches are visible for that one object; a repair needs the xref-stream object ids to be carried out of the xref reader (public signatures change), so it is recorded"),
